@@ -455,7 +455,24 @@ func body(c *kernel.Ctx) {
 	c.Set("beacon_faults", st.faulty)
 
 	bn := &beacon{st: st}
-	cache := eth2wrap.NewDutiesCache(bn, nil)
+	// The cache's "active validators" list (what app.go refreshes once per epoch from the head state) only
+	// stands in for an EMPTY request; explicit requests - the subject of the statement - must not depend on it.
+	// It is seeded at construction and replaced during the run by lists that leave out validators with duties.
+	activeList := func() []eth2p0.ValidatorIndex {
+		var l []eth2p0.ValidatorIndex
+		mask := verifrt.Intn("w", 1<<st.nVals)
+		for i := 0; i < st.nVals; i++ {
+			if mask&(1<<i) != 0 {
+				l = append(l, eth2p0.ValidatorIndex(i))
+			}
+		}
+		return l
+	}
+	var initial []eth2p0.ValidatorIndex
+	if verifrt.Intn("cfg", 2) == 1 {
+		initial = activeList()
+	}
+	cache := eth2wrap.NewDutiesCache(bn, initial)
 
 	var wg sync.WaitGroup
 	reads := 0
@@ -467,6 +484,10 @@ func body(c *kernel.Ctx) {
 			for i := 0; i < nOps; i++ {
 				if d := verifrt.Intn("w", 3); d > 0 {
 					verifrt.Sleep(time.Duration(d) * time.Millisecond)
+				}
+				if verifrt.Intn("w", 10) == 9 {
+					cache.UpdateActiveValIndices(activeList())
+					verifrt.Probe("active-validator-list-replaced")
 				}
 				switch x := verifrt.Intn("w", 12); {
 				case x <= 7 || x == 11:
